@@ -4,6 +4,7 @@ import OrbitModel.Proofs.GenEqSnap
 import OrbitModel.Proofs.SnapshotRace
 import OrbitModel.Proofs.SnapshotRaceEx
 import OrbitModel.Proofs.SnapshotFetch
+import OrbitModel.Model.Store
 /-!
 # C13 — a snapshot either is refused with an error or loads back to the same log, heads and state
 
@@ -147,5 +148,37 @@ theorem pinned_tree_wrote_unloadable_snapshot (r tl : List Nat) (hr : r.length =
 
 /-- `SaveSnapshot` in the Go text of this run reads heads, then length, then entries -/
 theorem read_order_tied_to_go_text : Gen.saveSnapshotOrder = Order.saveSnapshot := gen_saveSnapshot_order
+
+/-- **the snapshot route hands `Join` only entries of this log that `Join` accepts** (after the `fix:`
+commit, finding F47): the loader fetches the log again from the recorded heads — through every `next`
+and `refs` link, so it reaches what the replicator had left out when it arrived — and keeps, like `Load`,
+what `goodFetch` keeps. Before the repair the whole fetched log went to `Join`: an entry of another log
+became a head (unverified), and one refused entry made `Join` refuse the snapshot as a whole — a
+snapshot saved without error that could never be loaded. -/
+theorem snapshot_route_joins_only_entries_join_accepts (acl : Acl) (id : Nat) (fetch : Nat → OMap) (h : Nat) :
+    ∀ e ∈ goodFetch acl id fetch h, acceptable acl.canAppend e = true ∧ e.logId = id := by
+  intro e he
+  unfold goodFetch at he
+  obtain ⟨h1, h2⟩ := List.mem_filter.mp he
+  unfold ownFetch at h1
+  exact ⟨h2, by simpa using (List.mem_filter.mp h1).2⟩
+
+/-- Refutation witness for the loader as it was: writer 1's valid entry 3 names entry 2 — written for
+ANOTHER log — in its `refs`; the replicator had dropped 2; loaded from the recorded head 3 without the
+filter, 2 is a head of the store's log (replayed on the real store: the forge family saves and loads
+snapshots, corpus/C13/f47); with it, 2 stays out -/
+theorem foreign_entry_came_back_through_the_snapshot_before_the_fix :
+    let w : Entry := { hash := 3, logId := 1, time := 3, cid := 1, next := [], refs := [2] }
+    let f : Entry := { hash := 2, logId := 7, time := 2, cid := 9, next := [], ident := 9, key := 9 }
+    let fetch : Nat → OMap := fun _ => [w, f]
+    (∃ L, loadHead { wildcard := true } fetch (-1) (Log.empty 1) 3 = .ok L ∧ f ∈ L.heads) ∧
+    (∃ L, loadHead { wildcard := true } (goodFetch { wildcard := true } 1 fetch) (-1) (Log.empty 1) 3 = .ok L ∧
+      f ∉ L.heads ∧ f ∉ L.entries) := by
+  refine ⟨⟨_, rfl, ?_⟩, ⟨_, rfl, ?_, ?_⟩⟩ <;> decide
+
+/-- the loader of the Go text of this run applies the three tests (own log, access, signature) between
+rebuilding the log and joining it -/
+theorem snapshot_loader_filters_tied_to_go_text : Gen.loadSnapshotOrder = Order.loadSnapshot :=
+  gen_loadSnapshot_order
 
 end Orbit.C13
